@@ -31,6 +31,7 @@ from urwid import str_util
 from urwid.event_loop import ExitMainLoop
 from urwid.util import get_encoding
 
+from . import escape
 from .common import AttrSpec, BaseScreen
 
 if typing.TYPE_CHECKING:
@@ -40,6 +41,9 @@ if typing.TYPE_CHECKING:
 
 # replace control characters with ?'s
 _trans_table = "?" * 32 + "".join(chr(x) for x in range(32, 256))
+
+# a run with the "0" charset flag holds the alias letters of DEC special (line drawing) characters
+_dec_special_table = str.maketrans(escape.ALT_DEC_SPECIAL_CHARS, escape.DEC_SPECIAL_CHARS)
 
 _default_foreground = "black"
 _default_background = "light gray"
@@ -106,8 +110,11 @@ class HtmlGenerator(BaseScreen):
         for y, row in enumerate(canvas.content()):
             col = 0
 
-            for a, _cs, run in row:
-                t_run = run.decode(get_encoding()).translate(_trans_table)
+            for a, cs, run in row:
+                t_run = run.decode(get_encoding())
+                if cs == "0":
+                    t_run = t_run.translate(_dec_special_table)
+                t_run = t_run.translate(_trans_table)
                 if isinstance(a, AttrSpec):
                     aspec = a
                 else:
